@@ -10,7 +10,7 @@ api   = {"namespaces": [{"name", "imports": [..], "annTypes": [{"name", "params"
           "types": [{"struct": bool, "name", "parent": [ns, name] | null, "fields": [field ..], "subtypes": [[ns, name] ..],
                      "catchAll": bool}],
           "aliases": [{"name", "ty", "redact"}],
-          "routes": [{"name", "version", "deprecated", "arg", "result", "error", "attrs": [[key, "plain" | "timestamp" | ["tagRef", ty, tag]] ..]}]}]}
+          "routes": [{"name", "version", "deprecated", "arg", "result", "error", "attrs": [[key, "plain" | "tagRef" | "timestamp"] ..]}]}]}
 field = {"name", "ty", "dflt": null | ["lit"] | ["tag", ty, tag], "caller": null | str, "redact": bool}
 ty    = ["prim"] | ["void"] | ["user", ns, name] | ["alias", ns, name] | ["list", ty] | ["map", ty, ty] | ["nullable", ty]
 stmt  = {"k": "imp", "m"} | {"k": "cls", "name", "base": ref | null, "body": [..], "ctor": [..] | null}
@@ -75,16 +75,12 @@ def annOf (j : Json) : Except String AnnType := do
   pure { name := ← jstr j "name", params := ← strList j "params" }
 
 def attrOf (j : Json) : Except String (String × AttrKind) := do
-  match (← j.getArr?).toList with
-  | [k, v] =>
-    let key ← k.getStr?
-    match v with
-    | .str "plain" => pure (key, .plain)
-    | .str "timestamp" => pure (key, .timestamp)
-    | other => match (← other.getArr?).toList with
-      | [_, t, tag] => pure (key, .tagRef (← tyOf t) (← tag.getStr?))
-      | _ => throw "bad attr kind"
-  | _ => throw "pair expected"
+  let (k, v) ← pairOf j
+  match v with
+  | "plain" => pure (k, .plain)
+  | "tagRef" => pure (k, .tagRef)
+  | "timestamp" => pure (k, .timestamp)
+  | s => throw s!"bad attr kind {s}"
 
 def routeOf (j : Json) : Except String Route := do
   pure { name := ← jstr j "name", version := ← jnat j "version", deprecated := ← jbool j "deprecated",
